@@ -312,7 +312,7 @@ def check_c02(tier, seed):
     return finish(out, "model_checking",
                   "after EVERY operation the backing bytes are copied without flush and reopened strictly and permissively; "
                   "both dumps must equal the model tree (hence the live view). Forked histories continue on the reopened file. "
-                  "Threshold histories add directory / FAT / MiniFAT (thorough: DIFAT) sectors at real geometry; design level: InvOpen of MC_Phys "
+                  "Threshold histories add directory / FAT / MiniFAT / first and second DIFAT sectors (V3, 7.3 MB and 15.6 MB) at real geometry; design level: InvOpen of MC_Phys "
                   "(write-path model x open-path model, exhaustive at tiny geometry); fidelity: Trace_Open compares CfbOpen's verdict with the library's on every image",
                   FILE_ASSUME + ["crash points are operation boundaries at which no handle holds pending data (all driver ops flush)"],
                   {"fidelity": fid.open_summary("C02")})
